@@ -115,7 +115,17 @@ OkStep(st, e) ==
     [] e.op = "cf_flush" -> V(TRUE, st, "cf_flush")
     [] e.op = "len" -> V(v = Len_(st), st, "len")
     [] e.op = "fresh_read" ->
-         V((hd.clean /\ ~st.taint) => RNorm(v) = st.files[hd.name], st, "fresh_read")
+         \* after an Ok flush every accepted byte is read back by a fresh handle AND is in the
+         \* file image itself (e.disk = the stream as read from a reopened copy of the bytes).
+         \* After an injected failure the image as a whole may be beyond reopening (an earlier
+         \* failed call may have left other structures half-updated - "later calls may fail");
+         \* the stored bytes are then only judged when the copy can be opened and read.
+         V((hd.clean /\ ~st.taint) =>
+              /\ RNorm(v) = st.files[hd.name]
+              /\ (Has(e, "disk") =>
+                    IF e.disk.k = "ok" THEN RNorm(e.disk.v) = st.files[hd.name]
+                    ELSE (st.mode = "rw_faults" /\ st.faulted)),
+           st, "fresh_read")
     [] e.op = "close" ->
          V(TRUE, [st EXCEPT !.files = IF hd.open THEN (hd.name :> hd.view) @@ @ ELSE @,
                             !.hd = NoHandle], "close")
@@ -136,7 +146,11 @@ ResetStep(e) ==
 (* after an error the cursor is whatever the implementation says next       *)
 AfterErr(st, e) ==
   [st EXCEPT !.faulted = @ \/ Fired(e),
-             !.hd.known = IF MovesCursor(e) /\ st.mode # "plain" THEN FALSE ELSE @,
+             \* io::Read: "if an error is returned then it must be guaranteed that no bytes were read":
+             \* a failed read / fill_buf leaves the cursor where it was; other failed calls may have
+             \* made partial progress (resolved by the next logged position)
+             !.hd.known = IF MovesCursor(e) /\ st.mode # "plain" /\ ~(st.mode = "ro_faults" /\ e.op \in {"read", "fill_buf"})
+                          THEN FALSE ELSE @,
              !.hd.fill = 0,
              !.taint = @ \/ (e.op \in {"set_len", "write_all", "close", "create_stream"} /\ st.mode = "rw_faults")]
 
@@ -158,6 +172,9 @@ OpStep(e) ==
   THEN (* an error result *)
        IF e.res.e \in exp
        THEN /\ s' = [s EXCEPT !.faulted = @ \/ fired] /\ skip' = FALSE      \* predicted refusal: no effect
+            /\ (IF Has(e, "imghash") /\ l > 1 /\ Has(Rec[l - 1], "imghash") /\ Rec[l - 1].hi = e.hi
+                   /\ e.imghash # Rec[l - 1].imghash
+                THEN Fail("C10", "bytes-unchanged:" \o e.op, e) ELSE TRUE)
        ELSE IF s.mode = "plain" \/ ~(fired \/ s.faulted)
        THEN /\ Fail("C06", "unexpected-error", e)
             /\ PrintT(<<"EXPECTED", exp, "GOT", e.res>>)
